@@ -298,7 +298,7 @@ def check(run):
                 and isinstance(st.targets[0].elts[0], ast.Name) and 'randint' in norm(st.value.elts[0]):
             tfirst = st.targets[0].elts[0].id
     if len(twh) == 1 and tfirst:
-        keeps = batched_resample_keeps_going(trp, twh[0][0].test, tfirst)
+        keeps = batched_resample_keeps_going(trp, twh[0][0].test, tfirst, ctx=twh[0][1])
         if keeps is None:
             run.undecided('R11.resample', trp, twh[0][0].test, 'the batched resampling test is not in a form this rule reads')
         else:
